@@ -335,6 +335,22 @@ def long_horizon_case(rng):
     return c
 
 
+def gen_fullobs_slip(rng, gamma):
+    """fully observable; from the start state almost surely to state 1 and with probability 2^-30 / 2^-40 to
+    state 2, whose optimal action is optimal nowhere else: the vertex e_2 is reachable only through the tiny
+    branch, and PBVI is exact there only if the belief set really contains it"""
+    k = rng.choice([30, 40])
+    p = F(1, 2**k)
+    r1, r2, c2 = rng.randint(1, 4), rng.randint(1, 4), rng.randint(1, 4)
+    trans = {"0,0": [[1, str(1 - p)], [2, str(p)]], "0,1": [[1, str(1 - p)], [2, str(p)]],
+             "1,0": [[1, "1"]], "1,1": [[1, "1"]], "2,0": [[2, "1"]], "2,1": [[2, "1"]]}
+    reward = {"1,0,1": str(r1), "2,0,2": str(-c2), "2,1,2": str(r2)}
+    obs = {"%d,%d" % (a, ns): [[ns, "1"]] for a in (0, 1) for ns in range(3)}
+    return {"n": 3, "nA": 2, "actions": [[0, 1]] * 3, "trans": trans, "reward": reward,
+            "absorbing": [False] * 3, "init": [[0, "1"]], "gamma": gamma, "nO": 3, "obs": obs,
+            "obs_kinds": ["identity"] * 2}, "fullobs-slip-2^-%d" % k
+
+
 def degenerate_case():
     """one state, one action, one observation: expand_beliefs finds no new belief at all"""
     pc = {"n": 1, "nA": 1, "actions": [[0]], "trans": {"0,0": [[0, "1"]]}, "reward": {"0,0,0": "1"},
@@ -359,12 +375,17 @@ def gen_case(rng, tier, force=None):
         gamma = "9/10" if force.endswith("tiger") else "19/20"
         if force.startswith("long-horizon"):
             gamma = "99/100"
+        if force.startswith("fullobs-slip"):
+            gamma = rng.choice(["1/2", "3/4", "9/10"])
         variants.append(force)
     if gb < .06:
         gamma, _ = "0", variants.append("gamma=0")
     elif gb < .12:
         gamma, _ = NEAR1, variants.append("gamma=1-2^-20")
-    if r < .35:
+    if force and force.startswith("fullobs-slip"):
+        pc, vname = gen_fullobs_slip(rng, gamma)
+        variants[-1] = vname
+    elif r < .35:
         pc = gen_tiger(rng, gamma)
     elif r < .45 and not force:
         pc = gen_corridor(rng, gamma)
@@ -379,7 +400,8 @@ def gen_case(rng, tier, force=None):
     fullobs = r >= .45 and rng.random() < .25
     if force:
         fullobs = not force.endswith("tiger")
-    if fullobs:
+    slip = bool(force and force.startswith("fullobs-slip"))
+    if fullobs and not slip:
         pc.pop("obs_near_twin", None)
         pc["nO"] = pc["n"]
         pc["obs"] = {"%d,%d" % (a, ns): [[ns, "1"]] for a in range(pc["nA"]) for ns in range(pc["n"])}
@@ -407,23 +429,27 @@ def gen_case(rng, tier, force=None):
         non_dyadic(rng, pc)
         variants.append("non-dyadic-numbers")
     scaled = False
-    if force:
+    if force and not slip:
         pc["reward"] = {key: str(F(v) * 64) for key, v in pc["reward"].items()}
-    elif rng.random() < .15 or "duplicate-action-relgap-2^-20" in variants:
+    elif not force and (rng.random() < .15 or "duplicate-action-relgap-2^-20" in variants):
         k = rng.choice([2**10, 2**20])
         pc["reward"] = {key: str(F(v) * k) for key, v in pc["reward"].items()}
         variants.append("rewards-x%d" % k)
         scaled = True
     cfg = {"min_exp": rng.choice([0, 1, 2, 3]), "max_exp": rng.choice([1, 2, 3]),
            "eps": rng.choice(EPSS + ["1/100", "1", "0"]), "horizon": rng.choice([None, None, 1, 3, 10])}
-    if force or (scaled and gamma in GAMMAS and rng.random() < .5):
+    if (force and not slip) or (scaled and gamma in GAMMAS and rng.random() < .5):
         cfg["eps"], cfg["horizon"] = "1/1000", None       # tight threshold on a large value scale
         if force:
             cfg["min_exp"], cfg["max_exp"] = 3, 2
     if force and force.startswith("long-horizon"):
         cfg = {"min_exp": 1, "max_exp": 1, "eps": "0", "horizon": 1200}
     if fullobs:
-        cfg["min_exp"], cfg["max_exp"] = 3, rng.choice([2, 4])
+        # enough expansion rounds (min(max_exp, min_exp + 1) >= n) for the belief set to become closed under
+        # successors: each round adds at least one new vertex while one is missing
+        cfg["min_exp"], cfg["max_exp"] = pc["n"] + 1, pc["n"] + 2
+    if slip:
+        cfg["eps"], cfg["horizon"] = rng.choice(["1/100", "1/1000"]), None
     if "probability-2^-30" in variants or "observation-near-twin-2^-30" in variants or \
             any(x.startswith("tiny-branch-huge-reward") for x in variants):
         cfg["horizon"] = rng.choice([1, 3])       # exact arithmetic gains 30 bits per sweep on these
@@ -444,6 +470,8 @@ def gen_case(rng, tier, force=None):
     keep += absv[:1]
     rest = [b for b in bl if b not in keep]
     keep += rest[:max(0, 7 - len(keep))]
+    if fullobs:
+        keep += [b for b in bl if b["kind"] == "vertex" and b not in keep]     # every vertex is judged
     beliefs = [b["b"] for b in keep]
     kinds = [b["kind"] for b in keep]
     if pc["n"] >= 2:
@@ -467,6 +495,9 @@ def gen_case(rng, tier, force=None):
             "twin_first": rng.random() < .3, "unrelated": rng.randint(0, 2),
             "shared_objects": rng.random() < .4, "int_types": rng.random() < .3,
             "touch_first": rng.random() < .3,
+            "history": [h for h, pr_ in (("crude-solver-first", .5), ("discount-edited", .25)) if rng.random() < pr_
+                        and not (h == "discount-edited" and gamma in ("0", NEAR1))],
+            "history_gamma": rng.choice([x for x in GAMMAS if x != gamma]),
             "initial_index": 0 if kinds and kinds[0] == "initial" else None, "variants": variants}
 
 
@@ -474,6 +505,7 @@ def heavy(case):
     """cases whose exact arithmetic grows fast (2^-30 probabilities, gamma = 1 - 2^-20)"""
     v = case.get("variants", [])
     return "probability-2^-30" in v or "observation-near-twin-2^-30" in v or case["pomdp"]["gamma"] == NEAR1 or \
+        any(x.startswith("fullobs-slip") for x in v) or \
         any(x.startswith("tiny-branch-huge-reward") for x in v)
 
 
@@ -574,8 +606,9 @@ def run(ctx):
         cases = [degenerate_case(),
                  gen_case(ctx.rng, tier, force="large-values-tight-threshold:tiger"),
                  gen_case(ctx.rng, tier, force="large-values-tight-threshold:fullobs-costs"),
-                 long_horizon_case(ctx.rng)] + \
-                [gen_case(ctx.rng, tier) for _ in range(ncases - 4)]
+                 long_horizon_case(ctx.rng),
+                 gen_case(ctx.rng, tier, force="fullobs-slip")] + \
+                [gen_case(ctx.rng, tier) for _ in range(ncases - 5)]
     shards = min(ctx.jobs, 8 if tier == "quick" else 16)
     impl = ctx.impl("c08_impl.py", {"cases": cases}, shards=shards)["results"]
 
@@ -620,6 +653,7 @@ def run(ctx):
                 (["shared-mutable-caller-objects"] if case.get("shared_objects") else []) + \
                 (["int-typed-rewards-and-probabilities"] if case.get("int_types") else []) + \
                 (["n=nA"] if n == nA else []) + (["n=nO"] if n == nO else []) + \
+                ["history:" + h for h in case.get("history", [])] + \
                 (["action-labels-whose-set-order-differs-from-sorted-order(signed ints)"] if (case.get("labels") or {}).get("actions") == "signed" and nA >= 2 else []) + \
                 (["base-object-views-touched-first"] if case.get("touch_first") else []) + \
                 (["non-int-labels"] if set((case.get("labels") or {}).values()) - {"int"} else []) + \
@@ -800,6 +834,46 @@ def run(ctx):
                         ctx.violation("C08:alpha-policy:belief-representation-raises:%s:%s" % (rname, rr["error"].split(":")[0]), dr, found=True)
                     else:
                         ctx.violation("C08:alpha-policy:value-is-not-max-alpha-dot-belief", dict(dr, model_action_values=[str(y) for y in mav]), found=True)
+            # fully observable, expansion budget sufficient for a successor-closed belief set (theorem
+            # C08_fully_observable_pbvi applies to the clean algorithm): at EVERY vertex reachable in >= 1 step
+            # from the initial support - however unlikely the branch - PBVI's value is the optimal MDP value up
+            # to the slack of the configured threshold / horizon
+            cfgp = case["pbvi"]
+            rounds = min(int(cfgp["max_exp"]), int(cfgp["min_exp"]) + 1)
+            if fullobs and rounds >= pc["n"]:
+                sl_ = info[i]["order"][0]
+                P0, R0, af0, in0, Ob0 = ordered_arrays(pc, info[i]["order"])
+                mk0 = absorbing_mask(P0, R0, af0)
+                front = [s2 for s2 in range(pc["n"]) if in0[s2] > 0]
+                reach, seen = set(), set(front)
+                while front:
+                    s2 = front.pop()
+                    for a in range(pc["nA"]):
+                        for x in range(pc["n"]):
+                            if P0[s2][a][x] > 0:
+                                reach.add(x)
+                                if x not in seen and not mk0[x]:
+                                    seen.add(x)
+                                    front.append(x)
+                g0 = F(pc["gamma"])
+                M0 = max([F(0)] + [abs(sum(P0[s2][a][x] * R0[s2][a][x] for x in range(pc["n"])))
+                                   for s2 in range(pc["n"]) if not mk0[s2] for a in range(pc["nA"])])
+                slack0 = max(fr(pb["last_call"]["eps"]) / (1 - g0), g0 ** info[i]["H"] * M0 / (1 - g0))
+                for bi in info[i]["pb_idx"]:
+                    bvec = info[i]["beliefs"][bi]
+                    vs_ = [s2 for s2, x in enumerate(bvec) if F(x) == 1]
+                    if not vs_ or vs_[0] not in reach:
+                        continue
+                    counters["fullobs_reachable_vertex_checks"] = counters.get("fullobs_reachable_vertex_checks", 0) + 1
+                    got = fr(pb["queries"][bi]["value"])
+                    if abs(got - info[i]["Vs"][vs_[0]]) > slack0 + tol:
+                        ctx.violation("C08:fullobs:pbvi-differs-from-optimal-value-at-reachable-state",
+                                      dict(base, belief=case["beliefs"][bi], pbvi_value=float(got), optimal_value=float(info[i]["Vs"][vs_[0]]),
+                                           slack=float(slack0), expansion_rounds=rounds, belief_set_closed=bool(closed_coq),
+                                           belief_set=[[float(fr(x)) for x in b] for b in pb["last_call"]["belief_set"]],
+                                           clause="every observation reveals the state and the expansion budget (>= number of states rounds) suffices for a successor-closed belief set: at a state reachable from the initial distribution, through a branch of any positive probability, PBVI's value must equal the optimal MDP value up to max(eps/(1-gamma), gamma^H Rmax/(1-gamma))"),
+                                      found=True)
+                        break
             # points of the recorded belief set
             B = pb["last_call"]["belief_set"]
             closed = False
